@@ -2,6 +2,7 @@ import PGA.Drv.Util
 import PGA.Drv.MolJson
 import PGA.Model.Scheme
 import PGA.Model.Decompose
+import PGA.Spec.SchemeGuards
 /-! Driver ops of C02 (shared by C03/C04).
 `c02.descriptors` / `c02.assign`: the decomposition logic above the matcher on supplied match lists.
 `c02.full_batch` `{scheme: {centres: [{center, periph, ast}], descs: [{name, ast}], remaps}, mols: [graph…]}`:
@@ -87,7 +88,8 @@ def handle (op : String) (j : Json) : Option (Except String Json) :=
       let mols ← (← arr j "mols").toList.mapM molOfJson
       match src.load with
       | .error e => pure <| Json.mkObj [("loaderr", readErrName e)]
-      | .ok S => pure <| Json.mkObj [("res", Json.arr (mols.map (fullOne S)).toArray)]
+      | .ok S => pure <| Json.mkObj [("res", Json.arr (mols.map (fullOne S)).toArray),
+          ("schemewf", S.wf), ("nostar", S.noStar), ("nomolprefix", S.noMolPrefix)]
   | "c02.descriptors" => some do
       let inp ← input j
       match getDescriptors inp with
